@@ -270,7 +270,8 @@ pub fn gen_plan(seed: u64, prof: &Profile) -> Plan {
     // a long run of small features (a backlog for anything that buffers per feature)
     let many_features = !wide && r.chance(prof.many_features_pm, 1000);
     let (n_feat, max_sc, max_steps, max_bg) = if wide {
-        (r.usize(1, 3), r.usize(70, 100), 1, 0)
+        // (a third of the wide plans are very wide: several waves of more than 64 scenarios at the same stage)
+        (r.usize(1, 3), if r.chance(1, 3) { r.usize(150, 320) } else { r.usize(70, 100) }, 1, 0)
     } else if many_features {
         let n = r.usize(18, 45);
         (n, n + r.usize(0, 10), 1, 0)
